@@ -42,8 +42,8 @@ def obligations(tier):
     D = ["VP_N=%d" % n, "VP_K=%d" % k, "VP_STR_OBJ=%d" % (n + 4)]
     US = ["strtoll.0:2", "strtoll.1:4", "event_mm_strdup_.0:%d" % (n + 5), "prefix_suffix_match:%d" % (k + 2), "evhttp_find_alias:4", "vp_memcmp.0:%d" % (n + 2)]
     obs = [
-        dict(name="match", harness="C30_route.c", entry="harness_match", defines=D + ["VP_KPAT=%d" % (k if q else n)], unwind=n + 3, unwindset=US,
-             timeout=T, mem_gb=MM, desc="prefix_suffix_match vs reference glob: pattern <= %d, name <= %d symbolic bytes, both case modes" % (k if q else n, n)),
+        dict(name="match", harness="C30_route.c", entry="harness_match", defines=D + ["VP_KPAT=%d" % k], unwind=n + 3, unwindset=US,
+             timeout=T, mem_gb=MM, desc="prefix_suffix_match vs reference glob: pattern <= %d, name <= %d symbolic bytes, both case modes" % (k, n)),
     ]
     for nest in (0, 1):
         obs.append(dict(name="vhost_" + ("nested" if nest else "sibling"), harness="C30_route.c", entry="harness_vhost", defines=D + ["VP_NESTED=%d" % nest],
